@@ -20,7 +20,7 @@ meta = {
         "result": "confirmed" if "RESULT confirmed" in conf else "see confirm.log",
     },
     "detected_by": detected,
-    "base_commit": "cb29238",
+    "base_commit": (conf.split(" at ")[1].split()[0] if " at " in conf.split("\n")[0] else "cb29238"),
 }
 json.dump(meta, open(os.path.join(dst, "meta.json"), "w"), indent=1)
 print("kept", dst)
